@@ -906,6 +906,8 @@ func (e *Engine) handleOverflow(ctx context.Context, p peer.ID, overflow, wants 
 			if e.peerLedger.CancelWant(p, w.Cid) {
 				e.peerRequestQueue.Remove(w.Cid, p)
 			}
+			// The evicted want may have been admitted from this same message.
+			wants = slices.DeleteFunc(wants, func(ent bsmsg.Entry) bool { return ent.Cid == w.Cid })
 			removed = append(removed, i)
 			// Pop hoghest priority overflow.
 			firstOver := overflow[0]
@@ -938,6 +940,7 @@ func (e *Engine) handleOverflow(ctx context.Context, p peer.ID, overflow, wants 
 		if e.peerLedger.CancelWant(p, entCid) {
 			e.peerRequestQueue.Remove(entCid, p)
 		}
+		wants = slices.DeleteFunc(wants, func(ent bsmsg.Entry) bool { return ent.Cid == entCid })
 		e.peerLedger.Wants(p, overflowEnt.Entry)
 		wants = append(wants, overflowEnt)
 	}
